@@ -15,7 +15,9 @@ from . import cfg
 
 FN = 'propka.input.get_atom_lines_from_pdb'
 NAMES = [' N  ', ' OXT', " O''", ' CA ', ' H  ', 'N   ', ' OG ', '1HB ']
-TAGS = ['ATOM  ', 'HETATM', 'MODEL ', 'TER   ', 'OTHER']
+# 'TER:...' : TER records that are not padded to six columns (bare 'TER', with LF / CR LF / nothing after it, or two blanks)
+TER_SHORT = {'TER:lf': 'TER\n', 'TER:crlf': 'TER\r\n', 'TER:end': 'TER', 'TER:blanks': 'TER  \n'}
+TAGS = ['ATOM  ', 'HETATM', 'MODEL ', 'TER   ', 'OTHER'] + sorted(TER_SHORT)
 SHAPES = [('next', None), ('next', 'res'), ('res', None), ('res', 'res')]
 
 
@@ -25,6 +27,8 @@ def sym_chars(prefix, n):
 
 def make_line(ctx, tag, name):
     """80-column record: tag and atom name concrete, the rest symbolic printable ASCII."""
+    if tag in TER_SHORT:
+        return TER_SHORT[tag], {}
     if tag == 'OTHER':
         t = sym_chars('tag', 6)
     else:
@@ -197,7 +201,7 @@ def spec_cases(step):
         d = step.model_digits
         val = sum((d[i] - 48) * 10 ** (3 - i) for i in range(4))
         return [(True, dict(pre, model=val, nterm_residue=NEXT), None)]
-    if step.tag == 'TER   ':
+    if step.tag.startswith('TER'):
         return [(True, dict(pre, nterm_residue=NEXT), None)]
     f = line_fields(step)
     ignored = ex.contains(step.ignore, f['resname'])
